@@ -270,6 +270,11 @@ func (this *contractExecutor) decodeContractData(txData string) (*ContractRawDat
 		return nil, fmt.Sprintf("Contract data TransferValue eror, data: %s", data.TransferValue)
 	}
 
+	if transferValue.Sign() < 0 {
+		this.logger.Errorf("Contract TransferValue is negative:%s", data.TransferValue)
+		return nil, fmt.Sprintf("Contract data TransferValue eror, data: %s", data.TransferValue)
+	}
+
 	var input []byte
 	if common.IsProposal005() && (data.AbiData == "" || data.AbiData == "0x0") {
 		input = []byte{}
